@@ -13,7 +13,7 @@ OPS1 = ["neg", "compl", "not"]
 
 def spec_accepts(op, a, b, p, spec, impl):
     """L1 oracle: is the implementation's answer allowed by the specification?"""
-    if impl.startswith("panic") or impl == "timeout":
+    if impl.startswith("panic") or impl == "timeout" or impl.startswith("abort"):
         return False
     if op == "div":
         if b % p == 0:
@@ -108,6 +108,9 @@ def run(ctx):
         impl = vlib.run_harness("field", lines, timeout=900)
     except subprocess.TimeoutExpired:
         impl = probe_each(ctx, lines)
+    except vlib.BuildError:
+        # the process died (stack overflow / abort) on some request: find it
+        impl = vlib.run_harness_robust("field", lines, timeout_per_batch=300, max_restarts=12)
     model = vlib.run_model(["field " + l for l in lines])
     spec = vlib.run_model(["fieldspec " + l for l in lines])
     l1_fail = 0
@@ -115,6 +118,9 @@ def run(ctx):
     ops_hit = {}
     outcomes = {}
     for l, i, m, s in zip(lines, impl, model, spec):
+        if i == "not-run":
+            outcomes["not-run (process died too often)"] = outcomes.get("not-run (process died too often)", 0) + 1
+            continue
         op, a, b, p = l.split()
         a, b, p = int(a), int(b), int(p)
         ops_hit[op] = ops_hit.get(op, 0) + 1
